@@ -62,6 +62,42 @@ def mutations(fn):
     return out
 
 
+SLICE_FILES = ["factor.py", "measure.py", "pdf.py", "conditional.py"]
+
+
+def _is_ctor(call):
+    f = call.func
+    name = f.id if isinstance(f, ast.Name) else (f.attr if isinstance(f, ast.Attribute) else "")
+    return bool(name) and name[0].isupper()
+
+
+def slice_returns(repo):
+    """for every `slice` method: the return statements that do NOT hand back a freshly constructed object
+    (a constructor call, or a local name bound to one)"""
+    out = []
+    for f in SLICE_FILES:
+        with warnings.catch_warnings():
+            warnings.simplefilter("ignore")
+            tree = ast.parse(open(os.path.join(repo, "gaussian_toolbox", f)).read())
+        for cls in [n for n in tree.body if isinstance(n, ast.ClassDef)]:
+            for fn in [n for n in cls.body if isinstance(n, ast.FunctionDef) and n.name == "slice"]:
+                fresh = set()
+                for node in ast.walk(fn):
+                    if isinstance(node, ast.Assign) and isinstance(node.value, ast.Call) and _is_ctor(node.value):
+                        fresh |= {t.id for t in node.targets if isinstance(t, ast.Name)}
+                bad = []
+                rets = [n for n in ast.walk(fn) if isinstance(n, ast.Return)]
+                if not rets:
+                    bad.append("no return statement")
+                for r in rets:
+                    v = r.value
+                    ok = (isinstance(v, ast.Call) and _is_ctor(v)) or (isinstance(v, ast.Name) and v.id in fresh)
+                    if not ok:
+                        bad.append("line %d: returns %s" % (r.lineno, ast.unparse(v)[:50] if v is not None else "None"))
+                out.append(("%s:%s.slice" % (f, cls.name), bad))
+    return out
+
+
 def extract(repo):
     res = []
     for f, classes in TARGETS.items():
@@ -82,16 +118,19 @@ def extract(repo):
     return res
 
 
-def to_coq(res):
+def to_coq(res, slices=()):
     q = lambda s: '"%s"' % s.replace('"', "'")
     lines = ["(* GENERATED by harness/purity_extract.py from the current source of /repo -- do not edit *)",
              "From Coq Require Import List String.", "Import ListNotations.", "Open Scope string_scope.",
              "Definition operand_stores : list (string * list string) := ["]
     lines.append(";\n".join("  (%s, [%s])" % (q(n), "; ".join(q(x) for x in l)) for n, l in res))
     lines.append("].")
+    lines.append("Definition slice_not_fresh : list (string * list string) := [")
+    lines.append(";\n".join("  (%s, [%s])" % (q(n), "; ".join(q(x) for x in l)) for n, l in slices))
+    lines.append("].")
     return "\n".join(lines) + "\n"
 
 
 if __name__ == "__main__":
-    res = extract(sys.argv[1] if len(sys.argv) > 1 else "/repo")
-    sys.stdout.write(to_coq(res))
+    repo = sys.argv[1] if len(sys.argv) > 1 else "/repo"
+    sys.stdout.write(to_coq(extract(repo), slice_returns(repo)))
